@@ -362,16 +362,10 @@ impl Row {
                     if wrapping
                         && prev_pos.row + 1 == new_pos.row
                         && prev_pos.col >= self.cols()
+                        && new_pos.col == 0
                     {
-                        if new_pos.col > 0 {
-                            contents.extend(
-                                " ".repeat(usize::from(new_pos.col))
-                                    .as_bytes(),
-                            );
-                        } else {
-                            contents.extend(b" ");
-                            crate::term::Backspace.write_buf(contents);
-                        }
+                        contents.extend(b" ");
+                        crate::term::Backspace.write_buf(contents);
                     } else {
                         crate::term::MoveFromTo::new(prev_pos, new_pos)
                             .write_buf(contents);
@@ -420,15 +414,10 @@ impl Row {
             if wrapping
                 && prev_pos.row + 1 == new_pos.row
                 && prev_pos.col >= self.cols()
+                && new_pos.col == 0
             {
-                if new_pos.col > 0 {
-                    contents.extend(
-                        " ".repeat(usize::from(new_pos.col)).as_bytes(),
-                    );
-                } else {
-                    contents.extend(b" ");
-                    crate::term::Backspace.write_buf(contents);
-                }
+                contents.extend(b" ");
+                crate::term::Backspace.write_buf(contents);
             } else {
                 crate::term::MoveFromTo::new(prev_pos, new_pos)
                     .write_buf(contents);
